@@ -593,7 +593,7 @@ def run_cold_start_part(ctx, tier):
         rng = ctx.rng
         base = [[0, 1, 0, 1], [0, 1, 1, 0], [1, 0, 0, 1], [0, 0, 1, 1], [1, 1, 0, 0]]
         scheds = [b + [rng.randrange(2) for _ in range(12)] for b in base]
-        scheds += [[rng.randrange(2) for _ in range(16)] for _ in range(15 if tier == "quick" else 300)]
+        scheds += [[rng.randrange(2) for _ in range(16)] for _ in range(15 if tier == "quick" else 3000)]
         for order in scheds:
             shutil.rmtree(world.moddir, ignore_errors=True)
             # remove the whole chain of generated directories below mods
@@ -640,7 +640,7 @@ def run_decision_part(ctx, model_lines, model_expect, tier):
     from mako import codegen
     magic = codegen.MAGIC_NUMBER
     rng = ctx.rng
-    nhist = 60 if tier == "quick" else 1500
+    nhist = 60 if tier == "quick" else 15000
     old_flag = sys.dont_write_bytecode
     for h in range(nhist):
         # the interpreter's bytecode cache is part of "a later Template loads the module": exercise both settings
